@@ -74,7 +74,7 @@ CLAIMS = {
             "mutations and random bytes, under ASCII/EBCDIC and binary/hex bitmaps, packaged and generated configurations; "
             "mutated VBS/1014 files through VbsReader, IpmReader and the two CSV tools. TLC decides admissibility of "
             "each outcome class (dict / library error / records+stop); hang and foreign exceptions are in no outcome set.",
-            TB + "'Promptly' = 2 s watchdog per loads call (5 s per reader step, 8 s per tool run).", "3 C07"),
+            TB + "'Promptly' = 4 s watchdog per loads call (5 s per reader step, 8 s per tool run).", "3 C07"),
     'C08': ("TLA+ three-valued strict reference decoder (Reading: must-accept / must-reject / don't-care with exact "
             "framing) evaluated by TLC on every recorded loads call; decoder step machine model-checked (MC_Framing)",
             "TLC exhaustively checks pointer = sum of spans, contiguity, non-negative lengths, own-bytes and agreement "
